@@ -18,6 +18,7 @@ import Demeter.Uni.Kernel
 import Proofs.Lemmas.Exact
 import Proofs.C09.Recip
 import Proofs.C06.Close
+import Proofs.C04.Uni
 import Mathlib.Tactic.FieldSimp
 import Mathlib.Tactic.Ring
 import Mathlib.Tactic.Linarith
@@ -304,5 +305,30 @@ example : (2 ^ 100 : Nat) * 2 ^ 92 = 2 ^ 192 := by decide +kernel
 
 /-- the `eps` forms apply to every valid tick: e.g. tick 200000 of a 6/18 pool -/
 example : tickOk 200000 = true ∧ sqrtAt 200000 ≠ 0 := by decide +kernel
+
+/-! ### the exact law has no instance for the code's kernel -/
+
+/-- **No sqrt-price map makes the code's kernel satisfy the exact mirror law** (the reason the statements above carry their
+    slack explicitly, and `C09_orchestration` is a statement about the orchestration code, not about this kernel): on the
+    token0 = quote pool the prices `10^60` and `4·10^60` both have sqrt price 0 (the Decimal square root of `1/p` times `2^96`
+    is below 1), on its mirror they have two different sqrt prices — `priceToSqrt (mPool p) x = ms (priceToSqrt p x)` would
+    need `ms 0` to be both. -/
+theorem C09_std_kernel_has_no_exact_mirror :
+    ¬ ∃ ms : Nat → Nat, KernMirror (Kern.std NumCtx.exact sqx) (Kern.std NumCtx.exact sqx) toyPool ms := by
+  rintro ⟨ms, hk⟩
+  have h1 := hk.priceToSqrt (10 ^ 60)
+  have h2 := hk.priceToSqrt (4 * 10 ^ 60)
+  have e : priceToSqrtStd NumCtx.exact toyPool (10 ^ 60) = .ok 0 ∧ priceToSqrtStd NumCtx.exact toyPool (4 * 10 ^ 60) = .ok 0 ∧
+      priceToSqrtStd NumCtx.exact (mPool toyPool) (10 ^ 60) = .ok 79228162514264337593543950336000000000000000000000000000000 ∧
+      priceToSqrtStd NumCtx.exact (mPool toyPool) (4 * 10 ^ 60) = .ok 158456325028528675187087900672000000000000000000000000000000 := by
+    decide +kernel
+  simp only [Kern.std, e.1, e.2.1, e.2.2.1, e.2.2.2, Except.map] at h1 h2
+  have a := Except.ok.inj h1
+  have b := Except.ok.inj h2
+  omega
+
+/-- TickMath itself is not exactly reciprocal one tick away from 0 (so the `…_exact` corollaries apply to TickMath's sqrt
+    prices only at tick 0; everywhere else the `…_eps` forms with `C09_kernel_reciprocity` are the statement) -/
+theorem C09_std_tickmath_not_exactly_reciprocal : sqrtAt 1 * sqrtAt (-1) ≠ 2 ^ 192 := by decide +kernel
 
 end Demeter
